@@ -5,7 +5,8 @@
      for several object classes read from one table ([read_table_m]: XlsTableReader(r1, ..., rn))
    (line numbers of the source WITH the fix of finding origin-range-string-sort, which adds 7 lines
    at 167; the model is of that repaired code).
-   A worksheet is a list of rows of cell values ([cval]); the cell in row r,
+   A worksheet is a list of rows of cell values ([cval]: None, str, int, bool; any other value --
+   float, datetime -- by its str() text and the int it equals); the cell in row r,
    column c (0-based) has the openpyxl coordinate  col_name c ++ dec (r+1).
    Strings are lists of code points.  Exceptions are data ([res]).
    The literal tables (CellBool sets, default none-values, origin markers, the
@@ -90,6 +91,10 @@ Definition py_eqb (a b : cval) : bool :=
   | CInt x, CInt y => x =? y
   | CBool x, CBool y => Bool.eqb x y
   | CInt x, CBool y | CBool y, CInt x => x =? (if y then 1 else 0)
+  | COther _ (Some x), CInt y | CInt y, COther _ (Some x) => x =? y            (* 2.0 == 2 *)
+  | COther _ (Some x), CBool y | CBool y, COther _ (Some x) => x =? (if y then 1 else 0)
+  | COther _ (Some x), COther _ (Some y) => x =? y
+  | COther s None, COther t None => str_eqb s t
   | _, _ => false
   end.
 Definition py_in (v : cval) (l : list cval) : bool := existsb (py_eqb v) l.
@@ -102,6 +107,7 @@ Definition py_str (v : cval) : str :=
   | CInt z => dec_Z z
   | CBool true => [84;114;117;101]
   | CBool false => [70;97;108;115;101]
+  | COther txt _ => txt
   end.
 
 (* XlsTableReader._cell_is_empty *)
